@@ -10,18 +10,15 @@
 //!     only through the guarded count-down shape with small start values (termination);
 //!   * F25: no nil-accepting pattern (other than `[]`) on a value whose type is `T | []`; variables
 //!     of such a type are only observed in the program's final step;
-//!   * open finding "verdict carries the matched value's provenance": the verdict of a match on a
-//!     value with (possibly) known provenance is not consumed by the next term / step;
-//!   * open finding "return-type dispatch on a nil guard": no function parameter of type `T | []`;
-//!   * F24 residual: a branch condition with several matches contains something that makes the
-//!     compiler drop complement narrowing (builtin call, real block, literal / pin test).
+//!   * open finding "mid-chain match narrows the rest of the chain": a refutable match whose
+//!     scrutinee can be traced to a variable / the parameter is the last thing in its chain.
 //!
 //! Generated programs must pass (the generator is built to), and the shrinker only moves through
 //! programs that pass — so a shrunk counterexample never drifts into unspecified territory or into
 //! the shape of a known finding.
 #![allow(dead_code)]
 use super::ast::*;
-use super::progen::{accepts_nil, pat_binds, pat_irrefutable, type_test_decided};
+use super::progen::{accepts_nil, pat_binds, pat_irrefutable, type_test_decided, verdict_type};
 
 type R<T> = Result<T, String>;
 
@@ -38,6 +35,13 @@ struct Var {
     ty: Ty,
     st: St,
     rec: bool,
+    /// bound by a bare binder directly to a value the compiler can trace (parameter, variable):
+    /// the variable inherits that provenance (open finding: its type goes stale when rebound)
+    prov: bool,
+    /// has been read (then the compiler may hold narrowings keyed by its name)
+    used: std::cell::Cell<bool>,
+    /// block / function nesting depth of the binding
+    depth: u32,
 }
 
 impl Var {
@@ -49,6 +53,7 @@ impl Var {
 #[derive(Clone, Debug, Default)]
 struct Env {
     vars: Vec<Var>,
+    depth: u32,
 }
 
 impl Env {
@@ -56,7 +61,7 @@ impl Env {
         self.vars.iter().rev().find(|v| v.name == name)
     }
     fn bind(&mut self, name: &str, ty: Ty, st: St) {
-        self.vars.push(Var { name: name.to_string(), ty, st, rec: false });
+        self.vars.push(Var { name: name.to_string(), ty, st, rec: false, prov: false, used: std::cell::Cell::new(false), depth: self.depth });
     }
     fn settle(&mut self, names: &[String]) {
         for n in names {
@@ -82,7 +87,10 @@ impl Env {
             None => Err(format!("unbound variable {x}")),
             Some(v) if v.st != St::Definite => Err(format!("variable {x} of a possibly failed match")),
             Some(v) if v.tainted() => Err(format!("variable {x} may be nil (F25: only observable)")),
-            Some(v) => Ok(v),
+            Some(v) => {
+                v.used.set(true);
+                Ok(v)
+            }
         }
     }
 }
@@ -182,6 +190,10 @@ fn guard_chain(c: &Chain, p: &Ty) -> bool {
 struct V {
     /// flow state handed to nested tuple fields
     flow: std::cell::Cell<(bool, bool)>,
+    /// the chain just checked ends in a refutable match on a traceable value
+    last_narrows: std::cell::Cell<bool>,
+    /// nesting depth of tuple fields (a field's chain never short-circuits anything)
+    in_field: std::cell::Cell<u32>,
 }
 
 impl V {
@@ -217,11 +229,17 @@ impl V {
                 if t.has_fn() || !type_test_decided(t, ty) {
                     return Err("type test not statically decided".into());
                 }
+                if !ty.variants().iter().any(|v| v.sub(t)) {
+                    return Err("statically impossible type test (open finding: nilary function with dead type-test branch)".into());
+                }
                 Ok(())
             }
             Pat::As(t, x) => {
                 if t.has_fn() || !type_test_decided(t, ty) {
                     return Err("type test not statically decided".into());
+                }
+                if !ty.variants().iter().any(|v| v.sub(t)) {
+                    return Err("statically impossible type test (open finding: nilary function with dead type-test branch)".into());
                 }
                 let vs: Vec<Ty> = ty.variants().into_iter().filter(|v| v.sub(t)).collect();
                 let bt = if vs.is_empty() { t.clone() } else { Ty::union(vs) };
@@ -297,7 +315,7 @@ impl V {
     }
 
     /// binds the pattern's variables in `env`; returns (verdict type, refutable?)
-    fn check_pat(&self, env: &mut Env, pat: &Pat, ty: &Ty, binding: bool) -> R<(Ty, bool)> {
+    fn check_pat(&self, env: &mut Env, pat: &Pat, ty: &Ty, binding: bool, prov: bool) -> R<(Ty, bool)> {
         if binding && matches!(pat, Pat::Type(_)) {
             return Err("type pattern at the start of a chain reads as a type alias".into());
         }
@@ -307,6 +325,31 @@ impl V {
         let maybe_nil = ty.contains_nil() && !ty.is_nil();
         if maybe_nil && accepts_nil(pat) && !matches!(pat, Pat::Tup(None, fs) if fs.is_empty()) {
             return Err("nil-accepting pattern on a value that may be nil (F25)".into());
+        }
+        let mut bound = vec![];
+        pat.vars(&mut bound);
+        if let Some(b) = pat_binds(pat, ty) {
+            for (x, _) in b {
+                if !bound.contains(&x) {
+                    bound.push(x);
+                }
+            }
+        }
+        for x in &bound {
+            if let Some(old) = env.lookup(x) {
+                if old.depth == env.depth && (old.prov || old.used.get()) {
+                    return Err(format!("same-scope rebinding of {x}, which was read or bound to a traceable value (open finding: stale type after rebinding)"));
+                }
+            }
+        }
+        if pins_of(pat).iter().any(|x| bound.contains(x)) {
+            return Err("pattern pins a name that it also binds (open finding: pin reads the not yet stored local)".into());
+        }
+        if alt_inside_partial(pat, false) {
+            return Err("alternation inside a partial pattern (open finding)".into());
+        }
+        if alt_of_structured(pat) {
+            return Err("alternation whose alternatives are tuple patterns with fields (open finding)".into());
         }
         let mut seen = vec![];
         self.check_sub(env, pat, ty, &mut seen, false)?;
@@ -326,8 +369,11 @@ impl V {
                 Some(t) => env.bind(&x, t, if irref { St::Definite } else { St::Pending }),
                 None => env.bind(&x, Ty::nil(), St::Dead),
             }
+            if prov && matches!(pat, Pat::Bind(_) | Pat::As(..)) {
+                env.vars.last_mut().unwrap().prov = true;
+            }
         }
-        let vty = if irref && !ty.contains_nil() { Ty::ok() } else { Ty::ok().with_nil() };
+        let vty = verdict_type(pat, ty, irref);
         Ok((vty, !irref))
     }
 
@@ -378,6 +424,7 @@ impl V {
         }
         let mut cur = tin.clone();
         let (mut after_match, mut prov) = fs;
+        let mut last_match_narrows = false;
         for (i, t) in terms.iter().enumerate() {
             if i > 0 {
                 env.kill_pending();
@@ -388,14 +435,26 @@ impl V {
                     return Err("`#T` directly before a block prints ambiguously".into());
                 }
             }
-            if after_match && prov && self.uses_flow(env, t, cx) {
-                return Err("a match verdict that carries provenance is consumed (open finding: verdict provenance)".into());
+            // open finding "mid-chain match narrows the rest of the chain": a refutable match whose
+            // scrutinee may carry provenance (variable, parameter, `~`) ends its chain
+            if i > 0 && matches!(terms[i - 1], Term::Match(_)) && last_match_narrows {
+                return Err("a refutable match on a variable / parameter is followed by more terms (open finding: mid-chain narrowing)".into());
             }
             let is_last = i + 1 == terms.len();
             self.flow.set((after_match, prov));
+            let before = cur.clone();
             cur = self.term(env, &cur, terms, i, tail && is_last, cx)?;
             match t {
-                Term::Match(_) => after_match = true,
+                Term::Match(p) => {
+                    // refutable in the generator's view (the verdict may be nil for a reason other
+                    // than a nil-able scrutinee) and the scrutinee is traceable to a name
+                    let refutable = !(pat_binds(p, &before).is_some() && pat_irrefutable(p, &before));
+                    last_match_narrows = refutable && prov && !after_match;
+                    if last_match_narrows && self.in_field.get() > 0 {
+                        return Err("a refutable match on a variable / parameter inside a tuple field (open finding: mid-chain narrowing)".into());
+                    }
+                    after_match = true
+                }
                 _ => {
                     after_match = false;
                     prov = match t {
@@ -407,6 +466,7 @@ impl V {
                 }
             }
         }
+        self.last_narrows.set(last_match_narrows && matches!(terms.last(), Some(Term::Match(_))));
         Ok((cur, (after_match, prov)))
     }
 
@@ -425,7 +485,10 @@ impl V {
                         return Err("binding chain inside a tuple field".into());
                     }
                     env.kill_pending();
-                    let (ty, _) = self.terms(env, tin, &c.terms, false, cx, fs)?;
+                    self.in_field.set(self.in_field.get() + 1);
+                    let r = self.terms(env, tin, &c.terms, false, cx, fs);
+                    self.in_field.set(self.in_field.get() - 1);
+                    let (ty, _) = r?;
                     env.kill_pending();
                     if ty.is_never() {
                         return Err("never-typed field".into());
@@ -445,16 +508,22 @@ impl V {
                 Ok(Ty::Tup(n, ftys))
             }
             Term::Match(p) => {
-                let (vty, _) = self.check_pat(env, p, tin, false)?;
+                let (vty, _) = self.check_pat(env, p, tin, false, self.flow.get().1 && !self.flow.get().0)?;
                 Ok(vty)
             }
             Term::Block(e) => {
-                let mut inner = Env { vars: env.vars.clone() };
+                let mut inner = Env { vars: env.vars.clone(), depth: env.depth + 1 };
                 inner.kill_pending();
-                self.branches(&inner, tin, e, tail, cx)
+                let depth = self.in_field.replace(0);
+                let r = self.branches(&inner, tin, e, tail, cx);
+                self.in_field.set(depth);
+                r
             }
             Term::Fn { param, body } => {
-                let (ty, rec) = self.function(env, param, body)?;
+                let depth = self.in_field.replace(0);
+                let r = self.function(env, param, body);
+                self.in_field.set(depth);
+                let (ty, rec) = r?;
                 if rec {
                     return Err("count-down function not bound to a name".into());
                 }
@@ -568,11 +637,11 @@ impl V {
                 if ty.is_never() {
                     return Err("binding a tail call".into());
                 }
-                if fs_out.0 && fs_out.1 {
-                    return Err("a match verdict that carries provenance is consumed by the binding pattern (open finding: verdict provenance)".into());
+                if self.last_narrows.get() {
+                    return Err("a refutable match on a variable / parameter is followed by the binding pattern (open finding: mid-chain narrowing)".into());
                 }
                 env.kill_pending();
-                let (vty, refutable) = self.check_pat(env, p, &ty, true)?;
+                let (vty, refutable) = self.check_pat(env, p, &ty, true, fs_out.1 && !fs_out.0)?;
                 Ok((vty, if refutable { env.pending() } else { vec![] }, (true, fs_out.1)))
             }
             None => {
@@ -632,11 +701,8 @@ impl V {
         for (i, b) in bs.iter().enumerate() {
             let is_last = i + 1 == bs.len();
             let c = if i == 0 { cx_first } else { cx };
-            let mut benv = Env { vars: env.vars.clone() };
+            let mut benv = Env { vars: env.vars.clone(), depth: env.depth + 1 };
             benv.kill_pending();
-            if cond_match_count(&b.cond) >= 2 && !cond_has_disabler(&b.cond) {
-                return Err("several matches in one condition without anything that disables complement narrowing (F24 residual)".into());
-            }
             let (cty, pending) = self.seq(&mut benv, tin, &b.cond, tail && b.cons.is_none() && is_last, c)?;
             if cty.is_nil() {
                 if b.cons.is_some() {
@@ -682,11 +748,8 @@ impl V {
     }
 
     fn function(&self, env: &Env, param: &Ty, body: &Option<Expr>) -> R<(Ty, bool)> {
-        let mut cap = Env { vars: env.vars.clone() };
+        let mut cap = Env { vars: env.vars.clone(), depth: env.depth + 1 };
         cap.kill_pending();
-        if param.contains_nil() && !param.is_nil() {
-            return Err("function whose parameter type is `T | []` (open finding: return-type dispatch on a nil guard)".into());
-        }
         let Some(body) = body else {
             if param.is_nil() {
                 return Err("identity function of nil".into());
@@ -708,6 +771,34 @@ impl V {
         let r = if r.is_never() { Ty::nil() } else { r };
         // a guard-shaped function is treated as a count-down function (small arguments only)
         Ok((Ty::Fn(Box::new(param.clone()), Box::new(r)), guard_shaped))
+    }
+}
+
+fn pins_of(p: &Pat) -> Vec<String> {
+    match p {
+        Pat::Pin(x) => vec![x.clone()],
+        Pat::Tup(_, fs) => fs.iter().flat_map(|(_, q)| pins_of(q)).collect(),
+        Pat::Part(_, fs) => fs.iter().flat_map(|(_, q)| q.as_ref().map(pins_of).unwrap_or_default()).collect(),
+        Pat::Alt(ps) => ps.iter().flat_map(pins_of).collect(),
+        _ => vec![],
+    }
+}
+
+fn alt_of_structured(p: &Pat) -> bool {
+    match p {
+        Pat::Alt(ps) => ps.iter().any(|q| !matches!(q, Pat::Lit(_) | Pat::Type(_) | Pat::Wild) && !matches!(q, Pat::Tup(_, fs) if fs.is_empty())),
+        Pat::Tup(_, fs) => fs.iter().any(|(_, q)| alt_of_structured(q)),
+        Pat::Part(_, fs) => fs.iter().any(|(_, q)| q.as_ref().map(alt_of_structured).unwrap_or(false)),
+        _ => false,
+    }
+}
+
+fn alt_inside_partial(p: &Pat, inside: bool) -> bool {
+    match p {
+        Pat::Alt(ps) => inside || ps.iter().any(|q| alt_inside_partial(q, inside)),
+        Pat::Tup(_, fs) => fs.iter().any(|(_, q)| alt_inside_partial(q, inside)),
+        Pat::Part(_, fs) => fs.iter().any(|(_, q)| q.as_ref().map(|q| alt_inside_partial(q, true)).unwrap_or(false)),
+        _ => false,
     }
 }
 
@@ -760,7 +851,7 @@ pub fn validate(p: &Program) -> R<()> {
     if p.prints_ambiguously() {
         return Err("prints ambiguously".into());
     }
-    let v = V { flow: std::cell::Cell::new((false, true)) };
+    let v = V { flow: std::cell::Cell::new((false, true)), last_narrows: std::cell::Cell::new(false), in_field: std::cell::Cell::new(0) };
     let cx = Cx { param: None, rec: false };
     let mut env = Env::default();
     let n = p.steps.len();
